@@ -17,6 +17,7 @@ import (
 	"github.com/nspcc-dev/neo-go/pkg/vm/stackitem"
 	containerrpc "github.com/nspcc-dev/neofs-contract/rpc/container"
 	netmaprpc "github.com/nspcc-dev/neofs-contract/rpc/netmap"
+	"github.com/nspcc-dev/neofs-node/pkg/innerring/processors"
 	"github.com/nspcc-dev/neofs-node/pkg/innerring/processors/alphabet"
 	"github.com/nspcc-dev/neofs-node/pkg/innerring/processors/balance"
 	cntproc "github.com/nspcc-dev/neofs-node/pkg/innerring/processors/container"
@@ -42,6 +43,7 @@ import (
 	"github.com/nspcc-dev/neofs-node/pkg/util/precision"
 	"github.com/nspcc-dev/neofs-node/verifharness/irfix"
 	"github.com/nspcc-dev/neofs-sdk-go/container"
+	cid "github.com/nspcc-dev/neofs-sdk-go/container/id"
 	neofsecdsa "github.com/nspcc-dev/neofs-sdk-go/crypto/ecdsa"
 	"github.com/nspcc-dev/neofs-sdk-go/netmap"
 	"github.com/nspcc-dev/neofs-sdk-go/reputation"
@@ -67,6 +69,7 @@ type Fakes struct {
 	Managers  *Managers
 	ChainTime *ChainTime
 	NetState  *NetState // nil: the netmap client is used (needs a chain)
+	Meta      *MetaChain
 
 	AlphabetSync  func(event.Event)
 	NotaryDeposit func(event.Event)
@@ -140,6 +143,26 @@ func (m *Managers) BuildManagers(uint64, reputation.PeerID) ([]netmap.NodeInfo, 
 	return m.Nodes, nil
 }
 
+// MetaChain is a recording processors.MetadataChain.
+type MetaChain struct {
+	mu    sync.Mutex
+	Calls []string
+}
+
+func (m *MetaChain) UpdateContainerPlacement(id cid.ID, _ [][]netmap.NodeInfo, _ netmap.PlacementPolicy, _ uint32) error {
+	m.mu.Lock()
+	m.Calls = append(m.Calls, "placement:"+id.String())
+	m.mu.Unlock()
+	return nil
+}
+
+func (m *MetaChain) RegisterMetadataContainer(id cid.ID, _ uint32) error {
+	m.mu.Lock()
+	m.Calls = append(m.Calls, "register:"+id.String())
+	m.mu.Unlock()
+	return nil
+}
+
 type ChainTime struct{ T time.Time }
 
 func (c *ChainTime) Now() time.Time { return c.T }
@@ -210,6 +233,7 @@ type Options struct {
 	Offline        bool // no chain: netmap processor is built without the initial netmap read
 	AllowEC        bool
 	ScriptedNet    bool // container processor gets Fakes.NetState instead of the netmap client
+	MetaEnabled    bool // chain metadata feature on (container processor gets Fakes.Meta)
 }
 
 // NewEnv builds everything the way innerring.New wires it (same constructor
@@ -221,7 +245,7 @@ func NewEnv(o Options) (*Env, error) {
 	e.F = Fakes{
 		State: &irfix.State{}, Epoch: &irfix.Epoch{}, Validator: &Validator{}, Timer: &EpochTimer{},
 		Voter: &Voter{}, IRKeys: &IRFetcher{Keys: o.AlphabetKeys}, Managers: &Managers{},
-		ChainTime: &ChainTime{T: time.Unix(1_800_000_000, 0)}, NetState: &NetState{},
+		ChainTime: &ChainTime{T: time.Unix(1_800_000_000, 0)}, NetState: &NetState{}, Meta: &MetaChain{},
 	}
 	var alpha func() (keys.PublicKeys, error)
 	if o.Offline {
@@ -287,7 +311,7 @@ func NewEnv(o Options) (*Env, error) {
 	}
 	if e.Container, err = cntproc.New(&cntproc.Params{
 		Log: log, PoolSize: 1, AlphabetState: e.F.State, ContainerClient: e.ContainerCli, NetworkState: ns,
-		AllowEC: o.AllowEC, ChainTime: e.F.ChainTime,
+		AllowEC: o.AllowEC, ChainTime: e.F.ChainTime, MetaEnabled: o.MetaEnabled, MetaClient: metaClient(o.MetaEnabled, e.F.Meta),
 	}); err != nil {
 		return nil, fmt.Errorf("container: %w", err)
 	}
@@ -317,6 +341,13 @@ func NewEnv(o Options) (*Env, error) {
 		return nil, fmt.Errorf("reputation: %w", err)
 	}
 	return e, nil
+}
+
+func metaClient(on bool, m *MetaChain) processors.MetadataChain {
+	if !on {
+		return nil
+	}
+	return m
 }
 
 // Close releases the morph clients.
